@@ -191,9 +191,12 @@ def targets(ctx):
 
     from . import _seq
 
+    from . import _wkt
+
     return [
         Target("corpus_values", make_eval(c), strategy=strat(), quick=700, thorough=8000, time_quick=70),
         Target("known_finding_probes", probe_ev, cases=probe_cases, exhaustive=True, shard_cases=False),
         Target("grammar_schema_values", grammar_ev, strategy=gstrat, quick=3, thorough=40, time_quick=60, time_thorough=900, pin_budget=10, pin_sigs=1),
         _seq.target("C01"),
+        _wkt.target("C01"),
     ]
